@@ -8,6 +8,7 @@ fn main() {
         "streams" => sv::streams::main(&args[2..]),
         "terms" => sv::terms::main(&args[2..]),
         "mem" => sv::mem::main(&args[2..]),
+        "iri" => sv::iri::main(&args[2..]),
         _ => {
             eprintln!("unknown family {fam}");
             std::process::exit(2);
